@@ -242,6 +242,13 @@ class CallMixin:
             return self.call_contract(fi, c, env, st, node)
         if c is not None and fi.qualname == self.cur_fn_real() and c.get("decreases") is not None and not st.spec:
             return self.call_contract(fi, c, env, st, node, recursive=True)
+        if c is not None and fi.qualname == self.cur_fn_real() and not st.spec:
+            # recursion without a termination measure in the contract: only accepted when provably unreachable
+            self.oblige(st, f"call:{fi.qualname.split('.')[-1]}/recursion-unreachable", z3.BoolVal(False),
+                        clause="the recursive call is unreachable under the contract's precondition",
+                        site=getattr(node, "lineno", None))
+            st.assume(z3.BoolVal(False))
+            return NONE_VAL
         return self.inline(fi, env, st)
 
     def cur_fn_real(self):
@@ -399,6 +406,9 @@ class CallMixin:
                     raise Unsupported(f"argument {p} of {fi.qualname}: {v.ty} is not {ty}")
             else:
                 penv[p] = v
+        for gname in c.get("ghost", {}):
+            if gname in st.env and gname not in penv:
+                penv[gname] = st.env[gname]          # ghost parameters are passed by name
         line = getattr(node, "lineno", None)
         for k, r in enumerate(c["requires"]):
             goal = self.spec_truth(r, penv, st, old=st)
@@ -691,6 +701,17 @@ class CallMixin:
                 if kind == "all":
                     return Val(BOOL, self.mk_forall([i], z3.Implies(rng, body)))
                 return Val(BOOL, z3.Exists([i], z3.And(rng, body)))
+            if isinstance(it, ast.Call) and isinstance(it.func, ast.Name) and it.func.id == "dicts":
+                # every allocated dict object (specification only)
+                r = fresh("q_d", I)
+                st.env[g.target.id] = Val(DictT(JV), r)
+                st.ghost = dict(st.ghost)
+                st.ghost["__qvars__"] = qv + [g.target.id]
+                rng = z3.And(r > 0, r < st.alloc)
+                body = self._qbody(gen, g, st, kind)
+                if kind == "all":
+                    return Val(BOOL, z3.ForAll([r], z3.Implies(rng, body)))
+                return Val(BOOL, z3.Exists([r], z3.And(rng, body)))
             if isinstance(it, ast.Call) and isinstance(it.func, ast.Name) and it.func.id == "instants":
                 # every instant (integer microsecond) of the closed interval [a, b]
                 a_, b_ = [self.eval(x, st) for x in it.args]
